@@ -36,3 +36,44 @@ Example C14_example_rows :
   parse_row l1 = Transition [69;109;112;116;121]%nat [83;116;111;112;112;101;100]%nat [99;100]%nat [111;107;32;38;38;32;97;108;108]%nat [115;116;111;114;101]%nat /\
   parse_row l2 = Transition [79;112;101;110]%nat []%nat [112;108;97;121]%nat []%nat [100;101;102;101;114]%nat.
 Proof. vm_compute. auto. Qed.
+
+(* ---- guard expressions (after fix F9: find_top_level / parse_guard_simple) ---- *)
+From Msm Require Import PumlGuard Lemmas_PumlGuard.
+
+(* every expression of the C++-precedence grammar - or-chains of and-chains of unary expressions, negation, parentheses
+   nested to any depth, arbitrary blank/tab padding at every gap - is parsed into exactly the tree the grammar gives
+   it: operators inside parentheses are invisible to the enclosing level, || splits before &&, && before ! *)
+Theorem C14_guard_parser_exact : forall e, wf e -> (size (print e) < npos)%N ->
+  forall fuel, (length (print e) < fuel)%nat -> parse_guard_simple fuel (print e) = Some (erase e).
+Proof. exact parse_print. Qed.
+Print Assumptions C14_guard_parser_exact.
+
+(* ... hence the guard the library evaluates has the C++ value of the written expression under every valuation *)
+Theorem C14_guard_value : forall e v, wf e -> (size (print e) < npos)%N ->
+  option_map (geval v) (parse_guard (print e)) = Some (peval v e).
+Proof. exact parse_guard_value. Qed.
+Print Assumptions C14_guard_value.
+
+(* the parenthesis-aware search itself: the first operator outside parentheses, nothing inside them *)
+Theorem C14_guard_split_point : forall op a p1 t, is_op op -> wf a -> blank p1 -> (level a < oplevel op)%nat ->
+  find_top_level (print a ++ p1 ++ op ++ t) op = size (print a ++ p1).
+Proof. exact ftl_at_op. Qed.
+Print Assumptions C14_guard_split_point.
+
+Theorem C14_guard_no_split_inside : forall op e, is_op op -> wf e -> (level e < oplevel op)%nat ->
+  find_top_level (print e) op = npos.
+Proof. exact ftl_none. Qed.
+Print Assumptions C14_guard_no_split_inside.
+
+(* the hypotheses are satisfiable: the expression of finding F9, a && b || (c && d) *)
+Example C14_guard_F9 :
+  let a := PName [97%nat] in let b := PName [98%nat] in let c := PName [99%nat] in let d := PName [100%nat] in
+  let e := POr (PAnd a [32%nat] [32%nat] b) [32%nat] [32%nat] (PParen [] (PAnd c [32%nat] [32%nat] d) []) in
+  wf e /\ parse_guard (print e) = Some (GOr (GAnd (GName [97%nat]) (GName [98%nat])) (GAnd (GName [99%nat]) (GName [100%nat]))).
+Proof. split; [|vm_compute; reflexivity]. cbn. unfold blank, blank_char, ident_char. repeat split; try (repeat constructor; fail); try discriminate; auto. Qed.
+
+(* the recursive template instantiation of parse_guard_simple ends for every string, well-formed or not: each level works
+   on a strictly shorter string (fuel S (length s) is never exhausted), so every guard text yields some tree *)
+Theorem C14_guard_parser_total : forall s, (size s < npos)%N -> exists g, parse_guard s = Some g.
+Proof. exact parse_guard_total. Qed.
+Print Assumptions C14_guard_parser_total.
